@@ -55,6 +55,13 @@ STEMS = ["report", "data set", "Notes", "a", "ünï", "x-1", "UPPER", "v1.2", "r
 DIRS = ["", "", "docs/", "docs/sub/", "a b/", "Ünï/", "./", "./docs/"]
 
 
+def classify_harness(rec, payload):
+    """a run that had to be killed (wall cap) says nothing about this property: termination is C01's"""
+    if rec.get("_harness") == "timeout" or (rec.get("_harness") == "crash" and rec.get("signal") in (9, 24)):
+        return {"ignore": True, "reason": "killed_by_budget_termination_is_C01"}
+    return None
+
+
 def gen_case(rng: random.Random, tier: str) -> dict:
     fmt = rng.choice(["zip", "zip", "tar", "tar.gz", "tar.bz2", "tar.xz", "7z", "7z", "7z"])
     n = rng.choice([0, 1, 2, 3, 3, 4, 5, 6, 8])
